@@ -67,7 +67,7 @@ dispatch::~dispatch()
 }
 bool dispatch::set_default(uintptr_t id)
 {
-	if (!get(id)) {
+	if (!handler(id)) {
 		return false;
 	}
 	_def = id;
